@@ -97,6 +97,12 @@ func linearGen(r *rand.Rand, n int, tier string, emit func(Case)) {
 		case 2:
 			emit(Case{"kind": "even", "line": intLine(r), "n": r.Intn(53) - 2, "ct": r.Intn(4)})
 		case 3:
+			if r.Intn(3) == 0 {
+				l := &lgen{r: r, N: 4 + r.Intn(9)}
+				td := []int{1, 2, 4}[r.Intn(3)]
+				emit(Case{"kind": "simplifypoly", "w": l.polygon().AsText(), "tn": r.Intn(l.N*td + 1), "td": td, "ct": r.Intn(4)})
+				continue
+			}
 			side := 3 + r.Intn(14)
 			td := []int{1, 2, 4, 16}[r.Intn(4)]
 			emit(Case{"kind": "simplify", "line": latticeLine(r, 2+r.Intn(7), side), "tn": r.Intn(side*td + 1), "td": td, "ring": r.Intn(4) == 0, "ct": r.Intn(4)})
@@ -127,7 +133,7 @@ func linearGen(r *rand.Rand, n int, tier string, emit func(Case)) {
 
 func linearOnPanic(c Case) Event {
 	return Event{"kind": c.str("kind"), "line": [][]int{}, "fn": 0, "fd": 1, "empty": false, "finite": false, "q": []int{0, 0}, "qz": 0, "zs": []int{},
-		"n": 0, "pts": [][]int{}, "err": "", "valid": false, "kept": [][]int{}, "tn": 0, "td": 1, "dense": [][]int{}, "dn": 1, "dd": 1, "ctsame": false,
+		"n": 0, "pts": [][]int{}, "err": "", "valid": false, "kept": [][]int{}, "rings": [][][]int{}, "keptrings": [][][]int{}, "tn": 0, "td": 1, "dense": [][]int{}, "dn": 1, "dd": 1, "ctsame": false,
 		"x": "0000000000000000", "s": "0000000000000000", "sneg": "0000000000000000", "ss": "0000000000000000", "claim": false,
 		"k": 0, "e": 0, "dp": 0, "sd": 0, "sg": 0,
 		"revrev": false, "revvalid": false, "cwok": false, "ccwok": false, "cwidem": false, "ccwidem": false, "sameverts": false}
@@ -244,6 +250,21 @@ func linearExec(c Case) Event {
 		}
 		ev["valid"] = res.Validate() == nil && res.CoordinatesType() == ct && res.IsLineString()
 		ev["kept"] = seqInts(res.DumpCoordinates())
+	case "simplifypoly":
+		g := mustWKT(c.str("w")).ForceCoordinatesType(ct)
+		ev["tn"], ev["td"] = c.num("tn"), c.num("td")
+		ev["rings"] = polyInts(g.MustAsPolygon())
+		if g.Validate() != nil {
+			ev["err"] = "skip-invalid-input"
+			return ev
+		}
+		res, err := g.Simplify(float64(c.num("tn")) / float64(c.num("td")))
+		if err != nil {
+			ev["err"] = errStr(err)
+			return ev
+		}
+		ev["valid"] = res.Validate() == nil && res.CoordinatesType() == ct && res.IsPolygon()
+		ev["keptrings"] = polyInts(res.MustAsPolygon())
 	case "densify":
 		pts := intsOf(c["line"])
 		ls, _ := lineOf(pts, ct)
